@@ -825,7 +825,13 @@ type solveResult struct {
 	out     string
 }
 
-var procSem = make(chan struct{}, 16)
+var procSem = make(chan struct{}, 40)
+
+// buildMu serialises query construction (the term bank is not safe for concurrent use)
+var buildMu sync.Mutex
+
+// buildSecs: time spent constructing the main queries (sequential)
+var buildSecs float64
 
 func runSolver(ctx context.Context, key, file string, timeoutS int) solveResult {
 	sp := solvers[key]
@@ -868,6 +874,8 @@ type SolveConfig struct {
 	t1, t2    int
 	allAgree  bool // thorough: run all solvers and compare
 	keepFiles bool
+	noRetry   map[string]bool                  // obligations of recorded known findings: a second attempt would only cost time
+	variants  func(o *Obligation, file string) // builds the .nra/.rel/.umul variants of the query on demand
 }
 
 var tally = struct {
@@ -895,7 +903,7 @@ func (o *Obligation) ok() bool {
 
 func dischargeAll(p *Program, obls []*Obligation, cfg *SolveConfig) {
 	var wg sync.WaitGroup
-	sem := make(chan struct{}, 16)
+	sem := make(chan struct{}, 24)
 	// building queries touches the shared term bank: do it sequentially, solving in parallel
 	type job struct {
 		o   *Obligation
@@ -904,22 +912,21 @@ func dischargeAll(p *Program, obls []*Obligation, cfg *SolveConfig) {
 	var mu sync.Mutex
 	_ = mu
 	files := map[*Obligation]string{}
-	for i, o := range obls {
-		if o.Verdict != "" {
-			continue
+	tD := time.Now()
+	// the cheaper variants of a query (real-arithmetic abstraction, relevant hypotheses only, uninterpreted
+	// products) are built only for the obligations that the full query does not settle at once
+	cfg.variants = func(o *Obligation, file string) {
+		buildMu.Lock()
+		defer buildMu.Unlock()
+		if _, err := os.Stat(file + ".variants"); err == nil {
+			return
 		}
-		// build query text sequentially
-		q := p.buildQuery(o, 2)
-		file := filepath.Join(cfg.workdir, fmt.Sprintf("q%05d.smt2", i))
-		if err := os.WriteFile(file, []byte("; "+o.Name+"\n"+q), 0o644); err != nil {
-			o.Verdict = "error"
-			o.Detail = err.Error()
-			continue
-		}
+		os.WriteFile(file+".variants", nil, 0o644)
 		if nq := p.buildNRAQuery(o); nq != "" {
 			os.WriteFile(file+".nra", []byte("; "+o.Name+" (real-arithmetic abstraction)\n"+nq), 0o644)
 		}
 		if !o.ExpectSat {
+			q := p.buildQuery(o, 2)
 			qf := p.buildQueryOpt(o, 2, true)
 			if qf != q {
 				os.WriteFile(file+".rel", []byte("; "+o.Name+" (relevant hypotheses only)\n"+qf), 0o644)
@@ -931,22 +938,53 @@ func dischargeAll(p *Program, obls []*Obligation, cfg *SolveConfig) {
 				os.WriteFile(file+".umul", []byte("; "+o.Name+" (products of two non-literal factors uninterpreted)\n"+qu), 0o644)
 			}
 		}
+	}
+	for i, o := range obls {
+		if o.Verdict != "" {
+			continue
+		}
+		// build query text sequentially (the term bank is shared)
+		buildMu.Lock()
+		tb0 := time.Now()
+		q := p.buildQuery(o, 2)
+		buildSecs += time.Since(tb0).Seconds()
+		buildMu.Unlock()
+		file := filepath.Join(cfg.workdir, fmt.Sprintf("q%05d.smt2", i))
+		if err := os.WriteFile(file, []byte("; "+o.Name+"\n"+q), 0o644); err != nil {
+			o.Verdict = "error"
+			o.Detail = err.Error()
+			continue
+		}
 		files[o] = file
 		wg.Add(1)
 		sem <- struct{}{}
 		go func(o *Obligation, file string) {
 			defer wg.Done()
 			defer func() { <-sem }()
+			t0 := time.Now()
 			solveFile(o, file, cfg)
+			o.Wall = time.Since(t0).Seconds()
 		}(o, file)
 	}
+	if os.Getenv("GOVC_TIMING") != "" {
+		fmt.Fprintf(os.Stderr, "timing: producer loop done after %.1fs\n", time.Since(tD).Seconds())
+	}
 	wg.Wait()
+	if os.Getenv("GOVC_TIMING") != "" {
+		fmt.Fprintf(os.Stderr, "timing: all solved after %.1fs\n", time.Since(tD).Seconds())
+	}
 	// second chance: an obligation that no solver decided while all cores were busy is tried again on a quiet
 	// machine (a few at a time, longer limit). A definite answer (sat) is never retried.
 	var retry []*Obligation
 	for _, o := range obls {
-		if !o.ExpectSat && (o.Verdict == "unknown" || o.Verdict == "timeout") && files[o] != "" {
+		if !o.ExpectSat && (o.Verdict == "unknown" || o.Verdict == "timeout") && files[o] != "" && !cfg.noRetry[o.Name] {
 			retry = append(retry, o)
+		}
+	}
+	if os.Getenv("GOVC_TIMING") != "" {
+		fmt.Fprintf(os.Stderr, "timing: %d obligations to retry\n", len(retry))
+		for _, o := range retry {
+			fmt.Fprintf(os.Stderr, "   retry %s %s\n", o.Verdict, o.Name)
 		}
 	}
 	if len(retry) > 0 && len(retry) <= 24 {
@@ -1005,120 +1043,135 @@ func solveFile(o *Obligation, file string, cfg *SolveConfig) {
 		}
 		return false
 	}
-	if !o.ExpectSat {
-		if _, err := os.Stat(file + ".nra"); err == nil {
-			// real-arithmetic abstraction (an unsat answer is sound; anything else is ignored)
-			ch := make(chan solveResult, 3)
-			cctx, cancel := context.WithCancel(ctx)
-			keys := []string{"z3", "z3new", "cvc5"}
-			for _, k := range keys {
-				go func(k string) { ch <- runSolver(cctx, k, file+".nra", cfg.t1) }(k)
-			}
-			var win *solveResult
-			for range keys {
-				r := <-ch
-				if r.verdict == "unsat" && win == nil {
-					rr := r
-					win = &rr
-					cancel()
-				}
-			}
-			cancel()
-			if win != nil && !cfg.allAgree {
-				record(*win)
-				o.Verdict, o.Solver, o.Secs = "unsat", win.solver, win.secs
-				o.Detail = fmt.Sprintf("%s=unsat(%.2fs) on the real-arithmetic abstraction %s.nra", win.solver, win.secs, file)
-				tally.Lock()
-				tally.bySolver[o.Solver]++
-				tally.Unlock()
-				return
-			}
-		}
-		if _, err := os.Stat(file + ".umul"); err == nil {
-			// uninterpreted products (an unsat answer is sound; anything else is ignored)
-			keys := []string{"z3", "z3new", "z3e"}
-			ch := make(chan solveResult, len(keys))
-			cctx, cancel := context.WithCancel(ctx)
-			for _, k := range keys {
-				go func(k string) { ch <- runSolver(cctx, k, file+".umul", cfg.t0) }(k)
-			}
-			var win *solveResult
-			for range keys {
-				r := <-ch
-				if r.verdict == "unsat" && win == nil {
-					rr := r
-					win = &rr
-					cancel()
-				}
-			}
-			cancel()
-			if win != nil && !cfg.allAgree {
-				record(*win)
-				o.Verdict, o.Solver, o.Secs = "unsat", win.solver, win.secs
-				o.Detail = fmt.Sprintf("%s=unsat(%.2fs) with uninterpreted products %s.umul", win.solver, win.secs, file)
-				tally.Lock()
-				tally.bySolver[o.Solver]++
-				tally.Unlock()
-				return
-			}
-		}
-		if _, err := os.Stat(file + ".rel"); err == nil {
-			// first attempt: reduced hypothesis set (an unsat answer is sound; anything else is ignored)
-			ch := make(chan solveResult, 2)
-			cctx, cancel := context.WithCancel(ctx)
-			for _, k := range []string{"z3", "z3new"} {
-				go func(k string) { ch <- runSolver(cctx, k, file+".rel", cfg.t0) }(k)
-			}
-			var win *solveResult
-			for i := 0; i < 2; i++ {
-				r := <-ch
-				if r.verdict == "unsat" && win == nil {
-					rr := r
-					win = &rr
-					cancel()
-				}
-			}
-			cancel()
-			if win != nil && !cfg.allAgree {
-				record(*win)
-				o.Verdict, o.Solver, o.Secs = "unsat", win.solver, win.secs
-				o.Detail = fmt.Sprintf("%s=unsat(%.2fs) on the reduced hypothesis set %s.rel", win.solver, win.secs, file)
-				tally.Lock()
-				tally.bySolver[o.Solver]++
-				tally.Unlock()
-				return
-			}
-		}
-	}
-	if o.ExpectSat {
-		// vacuity guard: only a definite unsat is a failure; do not spend the long timeout on it
-		race([]string{"z3", "z3new"}, 3)
-	} else if !race([]string{"z3", "z3new", "z3e", "cvc5", "z3e1", "z3e2"}, cfg.t1) || cfg.allAgree {
-		if cfg.allAgree {
-			race([]string{"cvc5"}, cfg.t2)
-		} else {
-			race([]string{"cvc5", "z3", "z3new", "z3e", "z3e1", "z3e2"}, cfg.t2)
-		}
-	}
+	settled := false
 	if !o.ExpectSat && !cfg.allAgree {
-		dec := false
-		for _, r := range results {
-			if decisive(r) {
-				dec = true
+		// most obligations are settled by the full query within a second or two
+		settled = race([]string{"z3", "z3new", "z3e"}, 2)
+	}
+	if !settled {
+		if done := func() bool {
+			if !o.ExpectSat && cfg.variants != nil {
+				cfg.variants(o, file)
 			}
-		}
-		if _, err := os.Stat(file + ".rel"); err == nil && !dec {
-			// last resort: cvc5 on the reduced hypothesis set (an unsat answer is sound; anything else is ignored)
-			r := runSolver(ctx, "cvc5", file+".rel", cfg.t2)
-			if r.verdict == "unsat" {
-				record(r)
-				o.Verdict, o.Solver, o.Secs = "unsat", r.solver, r.secs
-				o.Detail = fmt.Sprintf("%s=unsat(%.2fs) on the reduced hypothesis set %s.rel", r.solver, r.secs, file)
-				tally.Lock()
-				tally.bySolver[o.Solver]++
-				tally.Unlock()
-				return
+			if !o.ExpectSat {
+				if _, err := os.Stat(file + ".nra"); err == nil {
+					// real-arithmetic abstraction (an unsat answer is sound; anything else is ignored)
+					ch := make(chan solveResult, 3)
+					cctx, cancel := context.WithCancel(ctx)
+					keys := []string{"z3", "z3new", "cvc5"}
+					for _, k := range keys {
+						go func(k string) { ch <- runSolver(cctx, k, file+".nra", cfg.t1) }(k)
+					}
+					var win *solveResult
+					for range keys {
+						r := <-ch
+						if r.verdict == "unsat" && win == nil {
+							rr := r
+							win = &rr
+							cancel()
+						}
+					}
+					cancel()
+					if win != nil && !cfg.allAgree {
+						record(*win)
+						o.Verdict, o.Solver, o.Secs = "unsat", win.solver, win.secs
+						o.Detail = fmt.Sprintf("%s=unsat(%.2fs) on the real-arithmetic abstraction %s.nra", win.solver, win.secs, file)
+						tally.Lock()
+						tally.bySolver[o.Solver]++
+						tally.Unlock()
+						return true
+					}
+				}
+				if _, err := os.Stat(file + ".umul"); err == nil {
+					// uninterpreted products (an unsat answer is sound; anything else is ignored)
+					keys := []string{"z3", "z3new", "z3e"}
+					ch := make(chan solveResult, len(keys))
+					cctx, cancel := context.WithCancel(ctx)
+					for _, k := range keys {
+						go func(k string) { ch <- runSolver(cctx, k, file+".umul", cfg.t0) }(k)
+					}
+					var win *solveResult
+					for range keys {
+						r := <-ch
+						if r.verdict == "unsat" && win == nil {
+							rr := r
+							win = &rr
+							cancel()
+						}
+					}
+					cancel()
+					if win != nil && !cfg.allAgree {
+						record(*win)
+						o.Verdict, o.Solver, o.Secs = "unsat", win.solver, win.secs
+						o.Detail = fmt.Sprintf("%s=unsat(%.2fs) with uninterpreted products %s.umul", win.solver, win.secs, file)
+						tally.Lock()
+						tally.bySolver[o.Solver]++
+						tally.Unlock()
+						return true
+					}
+				}
+				if _, err := os.Stat(file + ".rel"); err == nil {
+					// first attempt: reduced hypothesis set (an unsat answer is sound; anything else is ignored)
+					ch := make(chan solveResult, 2)
+					cctx, cancel := context.WithCancel(ctx)
+					for _, k := range []string{"z3", "z3new"} {
+						go func(k string) { ch <- runSolver(cctx, k, file+".rel", cfg.t0) }(k)
+					}
+					var win *solveResult
+					for i := 0; i < 2; i++ {
+						r := <-ch
+						if r.verdict == "unsat" && win == nil {
+							rr := r
+							win = &rr
+							cancel()
+						}
+					}
+					cancel()
+					if win != nil && !cfg.allAgree {
+						record(*win)
+						o.Verdict, o.Solver, o.Secs = "unsat", win.solver, win.secs
+						o.Detail = fmt.Sprintf("%s=unsat(%.2fs) on the reduced hypothesis set %s.rel", win.solver, win.secs, file)
+						tally.Lock()
+						tally.bySolver[o.Solver]++
+						tally.Unlock()
+						return true
+					}
+				}
 			}
+			if o.ExpectSat {
+				// vacuity guard: only a definite unsat is a failure; do not spend the long timeout on it
+				race([]string{"z3", "z3new"}, 3)
+			} else if !race([]string{"z3", "z3new", "z3e", "cvc5", "z3e1", "z3e2"}, cfg.t1) || cfg.allAgree {
+				if cfg.allAgree {
+					race([]string{"cvc5"}, cfg.t2)
+				} else {
+					race([]string{"cvc5", "z3", "z3new", "z3e", "z3e1", "z3e2"}, cfg.t2)
+				}
+			}
+			if !o.ExpectSat && !cfg.allAgree {
+				dec := false
+				for _, r := range results {
+					if decisive(r) {
+						dec = true
+					}
+				}
+				if _, err := os.Stat(file + ".rel"); err == nil && !dec {
+					// last resort: cvc5 on the reduced hypothesis set (an unsat answer is sound; anything else is ignored)
+					r := runSolver(ctx, "cvc5", file+".rel", cfg.t2)
+					if r.verdict == "unsat" {
+						record(r)
+						o.Verdict, o.Solver, o.Secs = "unsat", r.solver, r.secs
+						o.Detail = fmt.Sprintf("%s=unsat(%.2fs) on the reduced hypothesis set %s.rel", r.solver, r.secs, file)
+						tally.Lock()
+						tally.bySolver[o.Solver]++
+						tally.Unlock()
+						return true
+					}
+				}
+			}
+			return false
+		}(); done {
+			return
 		}
 	}
 	var sawSat, sawUnsat *solveResult
